@@ -31,7 +31,9 @@ REAL_TAGS = {"len": ["len-no-uncles-abs", "len-no-uncles-tau", "len-max-abs", "l
              "diff": ["diff-ideal", "diff-no-orphans", "diff-bounded-estimate"],
              # raw estimate exactly on / one off the clamp bounds 2*prev and prev/2 (named vacuity cases)
              "edge": ["hr-estimate-at-upper-bound-1", "hr-estimate-at-upper-bound+0", "hr-estimate-at-upper-bound+1",
-                      "hr-estimate-at-lower-bound-1", "hr-estimate-at-lower-bound+0", "hr-estimate-at-lower-bound+1"]}
+                      "hr-estimate-at-lower-bound-1", "hr-estimate-at-lower-bound+0", "hr-estimate-at-lower-bound+1",
+                      # the computed length exactly on its bound: not bounded yet (the ideal orphan rate still applies)
+                      "len-computed-equals-upper-bound", "len-computed-equals-lower-bound"]}
 APALACHE = "apalache-mc"
 KINDS = ["next", "reward", "halving", "c2t", "t2c", "d2c", "pow", "field", "succ"]
 SEQ = {"next": "NextCases", "reward": "RewardCases", "halving": "HalvingCases", "c2t": "C2TCases", "t2c": "T2CCases",
@@ -267,6 +269,12 @@ def judge(c, records, tier, tagcount, max_next=4, timeout=900, label=""):
                             if -1 <= t[side] <= 1:
                                 nm = "hr-estimate-at-%s-bound%+d" % ("upper" if side == "up" else "lower", t[side])
                                 tagcount[nm] = tagcount.get(nm, 0) + 1
+                    if r.get("tag") in ("len-edge-upper", "len-edge-lower") and t["len"] == "len-free" and "len" in r["out"]:
+                        ln = int(r["in"]["len"])
+                        bound = min(1800, 2 * ln) if r["tag"] == "len-edge-upper" else max(300, ln // 2)
+                        if int(r["out"]["len"]) == bound:
+                            nm = "len-computed-equals-%s-bound" % ("upper" if r["tag"] == "len-edge-upper" else "lower")
+                            tagcount[nm] = tagcount.get(nm, 0) + 1
                     if t["one"]:
                         tagcount["diff-forced-to-1"] = tagcount.get("diff-forced-to-1", 0) + 1
                     nontrivial = t["len"] != "len-free" or t["hr"] != "hr-inside"
